@@ -31,10 +31,13 @@ THEOREMS = [
     'Nb.C19.annot_zero_vertices_orig_counterexample',
     'Nb.C19.annot_narrow_ctab_orig_counterexample',
     'Nb.C19.annot_empty_ctab_unlabeled_witness',
+    'Nb.C19.annot_fill_ignores_last_column',
+    'Nb.C19.annot_recolour_chain',
     'Nb.C19.mgh_shape_roundtrip',
     'Nb.C19.mgh_single_frame_4d_limit',
     'Nb.C19.mgh_zooms_roundtrip',
     'Nb.C19.mgh_file_roundtrip',
+    'Nb.C19.mgh_save_load_roundtrip',
     'Nb.C19.gen_constants_consistent',
 ]
 ASSUMPTIONS = [
@@ -355,11 +358,43 @@ def mk_annot(d, stream='annot'):
     return Case(line, d, ('annot', _h(d)) if d['labels'] else None, stream)
 
 
+def ras_bytes(d):
+    """the 48 bytes `_affine2header` must leave in Mdc / Pxyz_c for the harness's affine family (signed
+    permutation x float32-exact zooms + integer translation), computed WITHOUT nibabel: Mdc.T has one +-1 per
+    row; c_ras[i] = float32(sign * zoom_j * shape_j / 2 + trans_i) for the column j mapped to axis i (the product
+    is exact in float64, so the sum is rounded once whatever the summation order)."""
+    z = [float(x) for x in f32_of(d['zooms']).astype(np.float64)]
+    perm, sign = PERMS[d.get('perm', 0) % len(PERMS)]
+    s = [int(x) for x in d['shape']]
+    s3 = (s + [1] * (3 - len(s)))[:3]
+    mdc_t = [[(float(sign[j]) if perm[j] == i else 0.0) for i in range(3)] for j in range(3)]
+    c = []
+    for i in range(3):
+        j = perm.index(i)
+        c.append(sign[j] * z[j] * (s3[j] / 2.0) + float(d.get('trans', [0, 0, 0])[i]))
+    with np.errstate(all='ignore'):
+        return np.array(mdc_t, dtype='>f4').tobytes() + np.array(c, dtype=np.float64).astype('>f4').tobytes()
+
+
 def mk_mgh(d, stream='mgh'):
     setz = '_' if d['setz'] is None else commas(d['setz'])
     sets = ';'.join(f'{i}:{v}' for i, v in d['sets']) if d['sets'] else '-'
-    line = f"C19 mgh {commas(d['shape'])} {d['dt']} {commas(d['data'])} {commas(d['zooms'])} {setz} {sets}"
+    line = (f"C19 mgh {commas(d['shape'])} {d['dt']} {commas(d['data'])} {commas(d['zooms'])} {hx(ras_bytes(d))} "
+            f"{setz} {sets}")
     return Case(line, d, ('mgh', _h(d)) if d['data'] else None, stream)
+
+
+def mk_mghload(d, stream='mghload'):
+    return Case(f"C19 mghload {d['file'] or '-'}", d, ('mghload', _h(d)), stream)
+
+
+def mk_annot2(d, stream='annot-chain'):
+    rows = ';'.join(':'.join(str(int(x)) for x in (r + [0])[:5]) for r in d['ctab']) if d['ctab'] else '-'
+    names = ';'.join((n.encode('utf-8').hex() or '_') for n in d['names']) if d['names'] else '-'
+    rgb = ';'.join(':'.join(str(int(x)) for x in r) for r in d['rgb']) if d['rgb'] else '-'
+    line = (f"C19 annot2 {int(d['fill'])} {int(d['ncol'] == 5)} {commas(d['labels'])} {rows} {names} {rgb} "
+            f"{int(d['fill2'])}")
+    return Case(line, d, ('annot2', _h(d)) if d['labels'] else None, stream)
 
 
 def mk_zoom(d, stream='zoom'):
@@ -371,7 +406,8 @@ def _h(d):
     return hashlib.sha1(json.dumps(d, sort_keys=True).encode()).hexdigest()[:12]
 
 
-MK = {'geom': mk_geom, 'morph': mk_morph, 'annot': mk_annot, 'mgh': mk_mgh, 'zoom': mk_zoom}
+MK = {'geom': mk_geom, 'morph': mk_morph, 'annot': mk_annot, 'mgh': mk_mgh, 'zoom': mk_zoom,
+      'mghload': mk_mghload, 'annot2': mk_annot2}
 
 
 def case_from_data(d):
@@ -540,9 +576,8 @@ def impl_mgh(case):
             dt2 = h2.get_data_dtype()
             pats = np.ascontiguousarray(arr.ravel(order='F')).view(f'{dt2.byteorder}u{dt2.itemsize}' if dt2.itemsize > 1 else 'u1')
             case.extra = {'img': img, 'img2': img2, 'arr': arr, 'raw': raw, 'data': data}
-            masked = raw[:42] + b'\0' * 48 + raw[90:]
-            return (f"ok hz={lst(hz)} file={hx(masked)} shape={lst(img2.shape)} code={int(h2['type'])} "
-                    f"zooms={lst(zooms)} ftr={lst(ftr)} data={lst(pats)}")
+            return (f"ok hz={lst(hz)} file={hx(raw)} shape={lst(img2.shape)} code={int(h2['type'])} "
+                    f"zooms={lst(zooms)} ftr={lst(ftr)} data={lst(pats)} ras={hx(h2.binaryblock[42:90])}")
         except Exception as e:
             return errname(e)
 
@@ -564,7 +599,58 @@ def impl_zoom(case):
     return pre + 'zooms=' + lst(pat_of([np.asarray(x) for x in h.get_zooms()]))
 
 
-IMPL = {'geom': impl_geom, 'morph': impl_morph, 'annot': impl_annot, 'mgh': impl_mgh, 'zoom': impl_zoom}
+def impl_mghload(case):
+    """MGHHeader.from_fileobj + data_from_fileobj on file bytes built by the harness"""
+    d = case.data
+    from nibabel.freesurfer.mghformat import MGHHeader
+    from nibabel.openers import ImageOpener
+    raw = bytes.fromhex(d['file'])
+    p = os.path.join(tmpdir(), 'ld' + d.get('ext', '.mgh'))
+    with open(p, 'wb') as f:
+        f.write(gzip.compress(raw, 1) if d.get('ext') == '.mgz' else raw)
+    with warnings.catch_warnings():
+        warnings.simplefilter('ignore')
+        try:
+            with ImageOpener(p, 'rb') as fobj:
+                h = MGHHeader.from_fileobj(fobj)
+                arr = np.array(h.data_from_fileobj(fobj))
+        except Exception as e:
+            return errname(e)
+    dt2 = h.get_data_dtype()
+    pats = np.ascontiguousarray(arr.ravel(order='F')).view(f'>u{dt2.itemsize}' if dt2.itemsize > 1 else 'u1')
+    zooms = pat_of([np.asarray(x) for x in h.get_zooms()])
+    ftr = pat_of([np.asarray(h[k]) for k in FTR_NAMES])
+    case.extra = {'h': h, 'arr': arr}
+    return (f"ok dims={lst(h['dims'])} shape={lst(h.get_data_shape())} code={int(h['type'])} zooms={lst(zooms)} "
+            f"ras={hx(h.binaryblock[42:90])} ftr={lst(ftr)} data={lst(pats)}")
+
+
+def impl_annot2(case):
+    d = case.data
+    io = fio()
+    p = os.path.join(tmpdir(), 'lh.y.annot')
+    labels, ctab, names = annot_arrays(d)
+    with warnings.catch_warnings():
+        warnings.simplefilter('ignore')
+        try:
+            io.write_annot(p, labels, ctab, names, fill_ctab=bool(d['fill']))
+            l1, c1, n1 = io.read_annot(p)
+            l1_out = [int(x) for x in l1]
+            k = min(len(d['rgb']), c1.shape[0])
+            if k:
+                c1[:k, :3] = np.array(d['rgb'][:k], dtype=np.int64)      # the 5th column is now stale
+            io.write_annot(p, l1, c1, n1, fill_ctab=bool(d['fill2']))
+            with open(p, 'rb') as f:
+                raw = f.read()
+            l2, c2, n2 = io.read_annot(p)
+        except Exception as e:
+            return errname(e)
+    case.extra = {'res': (l2, c2, n2), 'l1': l1_out, 'raw': raw}
+    rows = ','.join(lst(r) for r in np.asarray(c2).reshape(-1, 5))
+    return f"ok {hx(raw)} l1={lst(l1_out)} labels={lst(l2)} ctab=[{rows}] names={hexlist(bytes(x) for x in n2)}"
+
+
+IMPL = {'mghload': impl_mghload, 'annot2': impl_annot2, 'geom': impl_geom, 'morph': impl_morph, 'annot': impl_annot, 'mgh': impl_mgh, 'zoom': impl_zoom}
 
 
 def impl(case):
